@@ -27,6 +27,9 @@ func TestDev(t *testing.T) {
 	att, _ = strconv.Atoi(parts[2])
 	bud, _ = strconv.Atoi(parts[3])
 	cfg := &Cfg{Transport: tr, Scripts: scripts(sc), MaxAttempts: att, Budget: bud, Faults: faultsFor(tr, bud), MaxSteps: 400, Atomic: len(parts) > 4 && strings.Contains(parts[4], "atomic"), Sym: len(parts) > 4 && strings.Contains(parts[4], "sym"), Coarse: len(parts) > 4 && strings.Contains(parts[4], "coarse"), LazyTimers: len(parts) > 4 && strings.Contains(parts[4], "lazy"), SplitReceive: len(parts) > 4 && strings.Contains(parts[4], "split")}
+	if f := os.Getenv("C11_PREFIX"); f != "" {
+		cfg.Prefix = splitN(f, ',')
+	}
 	if f := os.Getenv("C11_FAULTS"); f != "" {
 		cfg.Faults = splitN(f, ',')
 	}
